@@ -169,13 +169,17 @@ def check_property(pid, tier):
     samples, trusted, funcs_uc, dead = [], set(), [], []
     for r in results:
         if r["error"]:
-            errors.append("%s: %s" % (r["function"], r["error"]))
-            continue
+            if any(o["verdict"] == "sat" for o in r["obligations"]):
+                # the executor stopped after a refuted obligation (e.g. a certainly-unbound read): the refutation is the verdict
+                pass
+            else:
+                errors.append("%s: %s" % (r["function"], r["error"]))
+                continue
         funcs_uc.append(dict(function=r["function"], variant=r["variant"], lines=r.get("lines"), source_sha=r.get("source_sha"),
                              obligations=len(r["obligations"]), loops_cut=r["loops_cut"], paths=r["paths"], wall_s=r["wall_s"],
                              callees_by_contract=r["used_contracts"], callees_inlined=r["inlined"]))
         trusted.update(r["trusted"])
-        if not r["obligations"]:
+        if not r["obligations"] and not r["error"]:
             errors.append("%s: zero obligations generated (vacuous)" % r["function"])
         for cn in r["canaries"]:
             if not cn["reachable"]:
